@@ -161,6 +161,7 @@ structure SOpts where
   skipUnmatched : Bool := true
   format : Bool := true
   newline : Str := [10]
+  baseIndent : Str := []
   indent : Str := [9]
   scope : Option Str := none          -- config.context['name'] when it is one of the `@@…` scopes that only filter
 
@@ -391,7 +392,7 @@ def Out.push (o : Out) (s : Str) : Out := { buf := o.buf ++ s }
 def Out.pushString (o : Out) (op : SOpts) (s : Str) : Out :=
   match splitLines s [] with
   | [] => o
-  | l :: ls => ls.foldl (fun acc ln => (acc.push op.newline).push ln) (o.push l)      -- level is always 0 here
+  | l :: ls => ls.foldl (fun acc ln => (acc.push (op.newline ++ op.baseIndent)).push ln) (o.push l)      -- push_newline(True) at level 0: newline + baseIndent
 def Out.pushField (o : Out) (index : Nat) (ph : Str) : Out :=
   o.push (if ph.isEmpty then [36, 123] ++ natToStr index ++ [125] else [36, 123] ++ natToStr index ++ [58] ++ ph ++ [125])
 
@@ -477,7 +478,7 @@ def expandStylesheetPre (abbr : Str) (sn : Array Snippet) (op : SOpts) : Except 
   let mut out : Out := {}
   let mut i := 0
   for n in kept do
-    if op.format && i != 0 then out := out.push op.newline
+    if op.format && i != 0 then out := out.push (op.newline ++ op.baseIndent)
     out ← cssProperty op n out
     i := i + 1
   return out.buf
